@@ -2585,3 +2585,38 @@ Proof.
   - destruct Hin as [Hin|[]]. injection Hin as <- <-. split; [reflexivity|assumption].
   - destruct Hin as [Hin|[Hin|[]]]; [|discriminate]. injection Hin as <- <-. split; [reflexivity|assumption].
 Qed.
+
+(* Callback re-entrancy.  process_answer: server_set_good(server) THEN end_query() (which runs
+   the user's callback).  In the model the success is the first observation of the step and
+   the completion the second; in the state the completion callback runs in, the answering
+   server has no failures, and a query started from inside the callback (EvSend on that state)
+   is selected against that table: the restored server competes with full priority. *)
+Lemma answer_then_send ch label a s ch' obs :
+  wf (ch_servers ch) -> find_attempt label (ch_inflight ch) = Some a -> at_probe a = false ->
+  find_addr (at_server a) (ch_servers ch) = Some s ->
+  step ch (EvAnswer label) = Ok (ch', obs) ->
+  obs = [OGood (at_server a); ODone label ARES_SUCCESS] /\
+  wf (ch_servers ch') /\
+  (exists s', find_addr (at_server a) (ch_servers ch') = Some s' /\ sv_fail s' = 0 /\ sv_idx s' = sv_idx s) /\
+  forall c ch'' obs'', step ch' (EvSend c) = Ok (ch'', obs'') ->
+    forall l b, In (OTx l b false) obs'' -> fresh_ok (ch_rotate ch') (ch_servers ch') b.
+Proof.
+  intros Hwf Hfa Hpa Hfs H. cbn [step] in H. rewrite Hfa, Hpa in H.
+  cbn [ch_servers set_inflight] in H. rewrite Hfs in H. injection H as <- <-.
+  destruct (set_good_spec (at_server a) (ch_servers ch) Hwf) as (Hwf1 & _ & Hsame & _).
+  destruct (Hsame s Hfs) as (s' & Hf' & Hidx & Hfail & _).
+  assert (wf (clear_probe (at_server a) (server_set_good (at_server a) (ch_servers ch)))) as Hwf2
+    by (eapply wf_key; [symmetry; apply clear_probe_key|exact Hwf1]).
+  split; [reflexivity|]. split; [exact Hwf2|]. split.
+  - exists (set_probe s' false). cbn [ch_servers set_servers]. rewrite clear_probe_find, Hf', Z.eqb_refl.
+    split; [reflexivity|split; assumption].
+  - intros c ch'' obs'' Hs l b Hin. cbn [step] in Hs.
+    match type of Hs with (if ?c then _ else _) = _ => destruct c end.
+    + injection Hs as <- <-. destruct Hin as [Hin|[]]; discriminate.
+    + match type of Hs with send_fresh ?c0 _ _ _ _ = _ =>
+        destruct (send_fresh_shape c0 _ _ _ _ _ _ Hwf2 Hs) as (Hsh & _) end.
+      inversion Hsh; subst; cbn [In] in Hin.
+      * destruct Hin as [Hin|[]]; discriminate.
+      * destruct Hin as [Hin|[]]. injection Hin as <- <-. assumption.
+      * destruct Hin as [Hin|[Hin|[]]]; [|discriminate]. injection Hin as <- <-. assumption.
+Qed.
